@@ -109,32 +109,6 @@ fn prologues() -> Vec<Vec<u8>> {
     vec![vec![], vec![0], vec![5; 32], vec![6; 64], vec![7; 65], vec![8; 129]]
 }
 
-/// Does the handshake hash the `name` field of the NoiseParams it is given (probe: the handshake hash after the
-/// first NN message with the field changed behind the parser's back)?
-fn name_field_is_hashed() -> bool {
-    static PROBE: std::sync::OnceLock<bool> = std::sync::OnceLock::new();
-    *PROBE.get_or_init(|| {
-        let hash_with = |alt: Option<&str>| -> Option<Vec<u8>> {
-            std::panic::catch_unwind(|| {
-                let mut params: snow::params::NoiseParams = "Noise_NN_25519_ChaChaPoly_SHA256".parse().ok()?;
-                if let Some(a) = alt {
-                    params.name = a.to_string();
-                }
-                let mut h = snow::Builder::new(params).fixed_ephemeral_key_for_testing_only(&[7u8; 32]).build_initiator().ok()?;
-                let mut buf = [0u8; 128];
-                h.write_message(b"", &mut buf).ok()?;
-                Some(h.get_handshake_hash().to_vec())
-            })
-            .ok()
-            .flatten()
-        };
-        match (hash_with(None), hash_with(Some("Noise_NN_25519_ChaChaPoly_SHA257"))) {
-            (Some(a), Some(b)) => a != b,
-            _ => true,
-        }
-    })
-}
-
 fn items_for(p: &Proto, deep: bool) -> Vec<Item> {
     let base = {
         let mut c = Config::honest(p, 0);
@@ -158,16 +132,26 @@ fn items_for(p: &Proto, deep: bool) -> Vec<Item> {
         let mods: Vec<String> = ps.iter().map(|k| format!("psk{k}")).collect();
         alt_names.push(format!("Noise_{}{}_{}_{}_{}", p.base, mods.join("+"), p.dh.name(), p.cipher.name(), p.hash.name()));
     }
-    // these items change the public `name` field of the parsed parameters; they say something about snow only
-    // if that field is what the handshake hashes (a snow that re-derives the identical string from the parsed
-    // components would be just as correct: then both sides of these items agree on the name and nothing is judged)
-    if name_field_is_hashed() {
+    // these items change the public `name` field of the parsed parameters (what NoiseParams::new lets any caller
+    // do). A snow that hashed a re-rendering of the parsed components instead of this string would not be
+    // equivalent: names the parser accepts in several spellings (psk01 for psk1) would collapse - see (i'')
+    {
         for an in alt_names {
             for side in 0..2 {
                 let mut c = base.clone();
                 c.hashed_name[side] = Some(an.clone());
                 v.push(Item { cfg: c, what: "the protocol name string" });
             }
+        }
+    }
+    // (i'') a psk number spelled with a leading zero, where the parser accepts that spelling: another string, so
+    // another protocol name (a parser that refuses it leaves nothing to judge)
+    for (k, q) in p.psks.iter().enumerate() {
+        let alt = p.name.replacen(&format!("psk{q}"), &format!("psk0{q}"), 1);
+        if alt != p.name {
+            let mut c = base.clone();
+            c.parse_name[k % 2] = Some(alt);
+            v.push(Item { cfg: c, what: "the spelling of a psk modifier in the name" });
         }
     }
     // (i') the same modifiers spelled in another order are a valid, different name: one side obtains its
